@@ -121,6 +121,10 @@ func read[EntityT entity.Interface](def Definition, wrapper func(e *Entity) Enti
 		}
 	}
 
+	// The BFS discovery order is only a topological order when all the branches have the same
+	// length. Sort it properly, so that a commit always comes before all of its ancestors.
+	BFSOrder = reverseTopologicalOrder(rootHash, BFSOrder)
+
 	// Now, we can reverse this topological order and read the commits in an order where
 	// we are sure to have read all the chronological ancestors when we read a commit.
 
@@ -242,6 +246,46 @@ func read[EntityT entity.Interface](def Definition, wrapper func(e *Entity) Enti
 		createTime: createTime,
 		editTime:   editTime,
 	}), nil
+}
+
+// reverseTopologicalOrder sorts the commits reachable from head so that each commit is placed
+// before all of its ancestors, whatever the shape of the DAG.
+func reverseTopologicalOrder(head repository.Hash, commits []repository.Commit) []repository.Commit {
+	byHash := make(map[repository.Hash]repository.Commit, len(commits))
+	for _, commit := range commits {
+		byHash[commit.Hash] = commit
+	}
+
+	type frame struct {
+		commit     repository.Commit
+		nextParent int
+	}
+
+	// iterative depth-first search, a commit is emitted once all its parents have been
+	result := make([]repository.Commit, 0, len(commits))
+	visited := map[repository.Hash]struct{}{head: {}}
+	stack := []frame{{commit: byHash[head]}}
+
+	for len(stack) > 0 {
+		top := &stack[len(stack)-1]
+		if top.nextParent < len(top.commit.Parents) {
+			parent := top.commit.Parents[top.nextParent]
+			top.nextParent++
+			if _, ok := visited[parent]; !ok {
+				visited[parent] = struct{}{}
+				stack = append(stack, frame{commit: byHash[parent]})
+			}
+			continue
+		}
+		result = append(result, top.commit)
+		stack = stack[:len(stack)-1]
+	}
+
+	for i, j := 0, len(result)-1; i < j; i, j = i+1, j-1 {
+		result[i], result[j] = result[j], result[i]
+	}
+
+	return result
 }
 
 // readClockNoCheck fetch from git, read and witness the clocks of an Entity at an arbitrary git reference.
